@@ -23,7 +23,7 @@ import (
 
 type c13Effects struct {
 	calls  map[string]bool // names called: f(...), x.f(...)
-	writes map[string]bool // names assigned / incremented: v = …, x.v = …, x.v++
+	writes map[string]bool // names assigned / incremented / atomically stored: v = …, x.v = …, x.v++, v.Store(…)
 }
 
 type c13Source struct {
@@ -127,6 +127,13 @@ func (src *c13Source) effects(key string, depth int, acc *c13Effects, seen map[s
 				return true
 			}
 			acc.calls[name] = true
+			// v.Store(x) on a plain variable (an atomic.Value such as nodeCache) replaces what the
+			// variable holds: a write of v
+			if f, ok := n.Fun.(*ast.SelectorExpr); ok && f.Sel.Name == "Store" {
+				if x, ok := f.X.(*ast.Ident); ok {
+					acc.writes[x.Name] = true
+				}
+			}
 			if depth <= 0 {
 				return true
 			}
